@@ -213,7 +213,7 @@ func GenPools(r *kit.Rand, n int, catalog []*cloudprovider.InstanceType) []*v1.N
 			taints = append(taints, kit.Pick(r, poolTaints))
 		}
 		w := int32(r.Intn(3) * 10)
-		np := test.NodePool(v1.NodePool{ObjectMeta: metav1.ObjectMeta{Name: fmt.Sprintf("pool-%d", i)},
+		np := test.NodePool(v1.NodePool{ObjectMeta: metav1.ObjectMeta{Name: fmt.Sprintf("pool-%d", i), UID: types.UID(fmt.Sprintf("uid-pool-%d", i))},
 			Spec: v1.NodePoolSpec{Weight: &w, Template: v1.NodeClaimTemplate{
 				ObjectMeta: v1.ObjectMeta{Labels: labels},
 				Spec:       v1.NodeClaimTemplateSpec{Requirements: reqs, Taints: taints}}}})
@@ -477,7 +477,7 @@ func GenNodes(r *kit.Rand, n int, w *World) []*NodeSpec {
 			for k, v := range pool.Spec.Template.Labels {
 				labels[k] = v
 			}
-			ns.NodeClaim = test.NodeClaim(v1.NodeClaim{ObjectMeta: metav1.ObjectMeta{Name: "nc-" + name, Labels: labels},
+			ns.NodeClaim = test.NodeClaim(v1.NodeClaim{ObjectMeta: metav1.ObjectMeta{Name: "nc-" + name, UID: types.UID("uid-nc-" + name), Labels: labels},
 				Spec:   v1.NodeClaimSpec{Taints: taints},
 				Status: v1.NodeClaimStatus{ProviderID: "fake://" + name, NodeName: name, Capacity: it.Capacity, Allocatable: alloc}})
 			ns.NodeClaim.StatusConditions().SetTrue(v1.ConditionTypeLaunched)
@@ -493,7 +493,7 @@ func GenNodes(r *kit.Rand, n int, w *World) []*NodeSpec {
 				ns.NodeClaim.StatusConditions().SetTrue(v1.ConditionTypeRegistered)
 				ns.NodeClaim.StatusConditions().SetTrue(v1.ConditionTypeInitialized)
 			}
-			ns.Node = test.Node(test.NodeOptions{ObjectMeta: metav1.ObjectMeta{Name: name, Labels: nl}, ProviderID: "fake://" + name, Taints: taints, Allocatable: alloc, Capacity: it.Capacity})
+			ns.Node = test.Node(test.NodeOptions{ObjectMeta: metav1.ObjectMeta{Name: name, UID: types.UID("uid-" + name), Labels: nl}, ProviderID: "fake://" + name, Taints: taints, Allocatable: alloc, Capacity: it.Capacity})
 			nb := r.Intn(3)
 			for j := 0; j < nb; j++ {
 				var ports []corev1.ContainerPort
